@@ -156,6 +156,14 @@ def point_objects(ctx, ci, cis):
         for obj, order in (("PointJacobi", ci.n), ("PointJacobi", None), ("Point", None)):
             out.append({"object": obj, "point_curve": own, "x": x, "y": y, "order": order, "class": "own-curve"})
         out.append({"object": "PointJacobi", "point_curve": own, "x": x, "y": (y + 1) % ci.p, "order": None, "class": "own-curve-off"})
+        # Jacobian representatives with Z != 1 of the same point (x() and y() invert Z), and the degenerate Z = 0, Z = p
+        z = rng.randrange(2, ci.p)
+        out.append({"object": "PointJacobi", "point_curve": own, "x": x, "y": y, "jac": (x * z * z % ci.p, y * z * z * z % ci.p, z),
+                    "order": ci.n, "class": "jacobian-scaled"})
+        out.append({"object": "PointJacobi", "point_curve": own, "x": x, "y": (y + 1) % ci.p,
+                    "jac": (x * z * z % ci.p, (y + 1) * z * z * z % ci.p, z), "order": None, "class": "jacobian-scaled-off"})
+        for z0 in (0, ci.p):
+            out.append({"object": "PointJacobi", "point_curve": own, "x": 0, "y": 0, "jac": (x, y, z0), "order": None, "class": "jacobian-z0"})
         out.append({"object": "PointJacobi", "point_curve": own, "x": x + ci.p, "y": y, "order": None, "class": "own-curve-alias"})
         # foreign curve objects through the same coordinates
         a2 = (ci.a + 1 + rng.randrange(5)) % ci.p
@@ -191,6 +199,9 @@ def build_point(desc, key_cv):
     cf = kc if pc == (kc.p(), kc.a(), kc.b(), kc.cofactor()) else EC.CurveFp(*pc)
     if desc["object"] == "Point":
         return EC.Point(cf, desc["x"], desc["y"], desc["order"])
+    if desc.get("jac"):
+        X, Y, Z = desc["jac"]
+        return EC.PointJacobi(cf, X, Y, Z, desc["order"])
     return EC.PointJacobi(cf, desc["x"], desc["y"], 1, desc["order"])
 
 
@@ -231,6 +242,12 @@ def check_object(ctx, ci, desc, validate):
         return None
     rec = {"input": {"entry": "VerifyingKey.from_public_point", "curve": ci.name, "point_object": desc, "validate_point": validate},
            "observed": got if isinstance(got, str) else list(got), "expected": sorted(map(str, exp))}
+    if desc.get("jac") and desc["jac"][2] != 0 and desc["jac"][2] % ci.p == 0 and got == "ValueError":
+        # a PointJacobi object whose Z is a non-zero multiple of p (an identity-valued triple stored unreduced): x() calls
+        # inverse_mod(Z, p) = pow(Z, -1, p) -> ValueError (code and model agree: the correspondence line passes).  Such
+        # objects cannot come out of the library's own arithmetic (every Z is reduced); reported to the coordinator,
+        # not judged until it has a disposition (fix / known finding / outside the property).
+        rec["observation"] = "PointJacobi with Z = k*p, k != 0: x() raises ValueError"
     return rec
 
 
@@ -284,7 +301,14 @@ def correspond(ctx):
                 except AssertionError:
                     continue
                 for v in (1, 0):
+                    if desc.get("jac"):
+                        pt = build_point(desc, cv)       # x()/y() scale the object in place: a fresh one per call
                     out = K.real(hk, lambda: VerifyingKey.from_public_point(pt, cv, validate_point=bool(v)))
+                    if desc.get("jac"):     # the object itself goes to the model: `fromPublicPointPt` through Curve.pjX / pjY
+                        pc = desc["point_curve"]
+                        c.add("vk_from_public_point_jac %s %d %d %d %d %d %d %d %s" % ((ct, pc[0], pc[1], pc[2]) + tuple(desc["jac"]) + (v, hk.sub_tok())),
+                              (lambda out=out: K.fmt_vk(out[1]) if out[0] == "ok" else (_ for _ in ()).throw(out[1])), "object-jacobian-" + desc["class"])
+                        continue
                     K.add(c, "vk_from_public_point %s %d %d %d %s" % (ct, desc["x"], desc["y"], v, hk.sub_tok()), out, K.fmt_vk,
                           "object-%s-%s" % (desc["object"], desc["class"]))
         c.add("find_curve [1,3,132,0,99]", lambda: C.find_curve((1, 3, 132, 0, 99)).name, "table")
@@ -425,14 +449,18 @@ def search(ctx):
                 ctx.violation({"input": {"entry": "VerifyingKey.from_public_point", "curve": ci.name, "x": x, "y": y},
                                "observed": got, "expected": exp})
     # 1b. point objects of every kind, validation on and off
+    obs = {}
     for ci in cis:
         for desc in point_objects(ctx, ci, cis):
             for validate in (True, False):
                 n_eval += 1
                 ctx.hist("search.object", desc["object"] + "/" + desc["class"])
                 rec = check_object(ctx, ci, desc, validate)      # INFINITY: the witness of the fixed finding F14
-                if rec:
+                if rec and rec.get("observation"):
+                    obs[rec["observation"]] = obs.get(rec["observation"], 0) + 1
+                elif rec:
                     ctx.violation(rec)
+    ctx.cov["observations_not_judged"] = obs
     # 2. toy curves: exhaustive truth table
     rot = K.Rot()
     for ci in K.all_toys():
@@ -485,15 +513,26 @@ def replay(rec):
     from ecdsa.keys import MalformedPointError
     i = rec["input"]
     cis = [K.CurveInfo(c) for c in C.curves]
+    if not isinstance(i, dict) or "entry" not in i:
+        K.cannot_replay("record without input.entry")
     if i["entry"] == "VerifyingKey.from_string":
         ci = curve_of_desc(i["curve"])
+        if ci is None:
+            K.cannot_replay("unknown curve description %r" % (i["curve"],))
         r = check_string(None, ci, bytes.fromhex(i["bytes"]), i.get("class", ""), VerifyingKey, MalformedPointError,
                          kind=i.get("argument_type", "bytes"))
         return r is not None
-    if i["entry"] == "VerifyingKey.from_public_point" and "point_object" in i:
-        ci = next(x for x in cis if x.name == i["curve"])
-        r = check_object(None, ci, i["point_object"], i["validate_point"])
-        return r is not None
+    if i["entry"] == "VerifyingKey.from_public_point":
+        ci = next((x for x in cis if x.name == i["curve"]), None)
+        if ci is None:
+            K.cannot_replay("unknown curve %r" % (i["curve"],))
+        if "point_object" in i:
+            r = check_object(None, ci, i["point_object"], i["validate_point"])
+            return r is not None and not r.get("observation")
+        if "x" in i and "y" in i:       # the coordinate records of the older point-object block
+            desc = {"object": "PointJacobi", "point_curve": (ci.p, ci.a, ci.b, ci.h), "x": i["x"], "y": i["y"], "order": None, "class": "coords"}
+            return check_object(None, ci, desc, True) is not None
+        K.cannot_replay("from_public_point record without point_object / coordinates")
     if i["entry"] in ("VerifyingKey.from_der", "VerifyingKey.from_pem"):
         buf = bytes.fromhex(i["bytes"])
         exp, _ = expected_der(cis, buf)
@@ -504,4 +543,4 @@ def replay(rec):
         except Exception as e:  # noqa
             got = common.errname(e)
         return got not in exp
-    return True
+    K.cannot_replay("unknown entry %r" % (i["entry"],))
